@@ -390,6 +390,15 @@ func c16One(r *Run, x *c16Ctx, c c16Cell, kind string) {
 		add = append(add, slog.LlocalTime)
 	}
 	slog.AddFlags(add...)
+	if x.n%3 == 0 { // every third record: a temporary change of the date/time flags and its restore come in between
+		var restore func()
+		if c.DT != 7 {
+			restore = slog.SaveFlagsAndMod(slog.Ldate | slog.Ltime | slog.Lmicroseconds)
+		} else {
+			restore = slog.SaveFlagsAndMod(0, slog.Lmicroseconds)
+		}
+		restore()
+	}
 	flagsNow := int64(slog.GetFlags())
 
 	e := c16NewLogger(&c, x.n)
